@@ -84,12 +84,6 @@ harness(void)
 	size_t sl = strlen(u->u_scheme);
 	CHECK(strncmp(raw, u->u_scheme, sl) == 0 && strncmp(raw + sl, "://", 3) == 0,
 	    "scheme is exactly a known scheme followed by ://");
-	int known = 0;
-	for (int i = 0; nni_schemes[i] != NULL; i++) {
-		if (nni_schemes[i] == u->u_scheme)
-			known = 1;
-	}
-	CHECK(known, "scheme pointer is a table entry");
 	CHECK(u->u_path != NULL, "path never NULL");
 
 	if (!is_pathlike(u->u_scheme)) {
